@@ -111,39 +111,63 @@ class C13(PropertyCheck):
             uv[i] = [uv[i][0] + Fraction(1, 2), uv[i][1] - Fraction(3, 4)]  # non-integer
         return uv
 
-    def _matrix(self, rng, n, c, signed=True):
+    def _matrix(self, rng, n, c, signed=True, ints=False):
         out = []
         for _ in range(n):
             row = []
             for _ in range(c):
                 r = rng.random()
+                mag = Fraction(rng.randint(1, 4)) if ints else gen.pos_dyadic(rng, 1, 3, 2)
                 if r < 0.3:
                     v = Fraction(0)
                 elif signed and r < 0.65:
-                    v = -gen.pos_dyadic(rng, 1, 3, 2)
+                    v = -mag
                 else:
-                    v = gen.pos_dyadic(rng, 1, 3, 2)
+                    v = mag
                 row.append(v)
             out.append(row)
         return out
 
-    def _transformer_case(self, rng, m, tag, k=None, c=None, fixed_uv=None):
+    def _val(self, rng, ints):
+        return Fraction(rng.randint(-5, 5)) if ints else gen.dyadic(rng, -4, 4, 3)
+
+    def _feed(self, rng, ints, uv):
+        """how the numbers reach the public API (round-3 hardening): dtype / container of every array
+        argument, explicit-default keyword values, and whether the caller's baseline array is
+        overwritten after the transformer was built (the transformer must own its baselines)."""
+        uv_int = all(Fraction(a).denominator == 1 and Fraction(b).denominator == 1 for a, b in uv)
+        return {
+            "uv_dtype": "int64" if (uv_int and rng.random() < 0.3) else "float",
+            "image": rng.choice(["int64", "pyint_list"]) if ints else rng.choice(["float", "float_list", "float32"]),
+            "M": "int64" if ints else rng.choice(["float", "float32"]),
+            # complex ndarray / python list of complex / float array of (re, im) pairs
+            "vis": rng.choice(["complex", "list", "pairs"]),
+            # preload_transform=True passed explicitly or left to its default (True)
+            "preload_kw": rng.choice(["explicit", "default"]),
+            "scribble_uv": rng.random() < 0.5,
+        }
+
+    def _transformer_case(self, rng, m, tag, k=None, c=None, fixed_uv=None, ints=None):
         n = sum(1 for r in m for b in r if not b)
-        k = k or rng.randint(1, 6)
+        k = rng.randint(1, 6) if k is None else k
         c = c or rng.randint(1, 4)
+        if ints is None:
+            ints = rng.random() < 0.22
         sy, sx = gen.scales_pair(rng)
         oy, ox = gen.origin_pair(rng)
         if rng.random() < 0.25:
             oy, ox = Fraction(0), Fraction(0)
-        uv = fixed_uv or self._uv(rng, k)
+        uv = fixed_uv if fixed_uv is not None else (self._uv(rng, k) if k > 0 else [])
         k = len(uv)
+        uvq = [qlist(p) for p in uv]
         return {
-            "tag": tag, "kind": "transformer", "mask": mask_json(m),
+            "tag": tag + ("_int" if ints else ""), "kind": "transformer", "mask": mask_json(m),
             "pixel_scales": [q(sy), q(sx)], "origin": [q(oy), q(ox)],
-            "uv": [qlist(p) for p in uv],
-            "image": qlist([gen.dyadic(rng, -4, 4, 3) for _ in range(n)]),
-            "vis": [qlist([gen.dyadic(rng, -4, 4, 3), gen.dyadic(rng, -4, 4, 3)]) for _ in range(k)],
-            "M": qmat(self._matrix(rng, n, c)), "n_cols": c,
+            "uv": uvq,
+            "image": qlist([self._val(rng, ints) for _ in range(n)]),
+            "vis": [qlist([self._val(rng, ints), self._val(rng, ints)]) for _ in range(k)],
+            "M": qmat(self._matrix(rng, n, c, ints=ints)), "n_cols": c,
+            "feed": self._feed(rng, ints, uvq),
         }
 
     def _normal_case(self, rng, m, tag):
@@ -165,11 +189,16 @@ class C13(PropertyCheck):
             "uv": [qlist(p) for p in self._uv(rng, k)],
             "data": [qlist([gen.dyadic(rng, -4, 4, 3), gen.dyadic(rng, -4, 4, 3)]) for _ in range(k)],
             "noise": [qlist([gen.pos_dyadic(rng, 1, 4, 2), gen.pos_dyadic(rng, 1, 4, 2)]) for _ in range(k)],
-            "diag_value": q(rng.choice([Fraction(1, 1024), Fraction(1, 2), Fraction(3)])),
-            "default_settings": rng.random() < 0.3,
+            # explicit values incl. the "set but falsy" 0 and the explicit value equal to the package default
+            "diag_value": q(rng.choice([Fraction(1, 1024), Fraction(1, 2), Fraction(3), Fraction(0),
+                                        Fraction(1.0e-3)])),
+            "default_settings": rng.random() < 0.25,
             "via_factory": rng.random() < 0.4,
             "preload": rng.random() < 0.5,
             "objs": objs,
+            "feed": {"uv_dtype": "float", "M": rng.choice(["float", "int64", "float32"]),
+                     "vis": rng.choice(["complex", "list", "pairs"]),
+                     "scribble_uv": rng.random() < 0.5},
         }
 
     def _util_case(self, rng, tag):
@@ -181,12 +210,15 @@ class C13(PropertyCheck):
                 for _ in range(n)]
         if n >= 2 and rng.random() < 0.5:
             grid[1] = list(grid[0])
+        ints = rng.random() < 0.25
+        uvq = [qlist(p) for p in self._uv(rng, k)]
         return {
-            "tag": tag, "kind": "util", "grid": [qlist(p) for p in grid],
-            "uv": [qlist(p) for p in self._uv(rng, k)],
-            "image": qlist([gen.dyadic(rng, -4, 4, 3) for _ in range(n)]),
-            "vis": [qlist([gen.dyadic(rng, -4, 4, 3), gen.dyadic(rng, -4, 4, 3)]) for _ in range(k)],
-            "M": qmat(self._matrix(rng, n, c)), "n_cols": c,
+            "tag": tag + ("_int" if ints else ""), "kind": "util", "grid": [qlist(p) for p in grid],
+            "uv": uvq,
+            "image": qlist([self._val(rng, ints) for _ in range(n)]),
+            "vis": [qlist([self._val(rng, ints), self._val(rng, ints)]) for _ in range(k)],
+            "M": qmat(self._matrix(rng, n, c, ints=ints)), "n_cols": c,
+            "feed": self._feed(rng, ints, uvq),
         }
 
     def generate(self, tier, rng):
@@ -196,6 +228,12 @@ class C13(PropertyCheck):
         for (h, w) in gen.shapes_upto(cells):
             for m in gen.all_masks(h, w):
                 yield self._transformer_case(rng, m, "exh_mask", c=2, fixed_uv=fixed_uv)
+        # degenerate sizes: no unmasked pixel, no baseline, a single baseline, a single pixel
+        for (h, w) in gen.shapes_upto(4):
+            yield self._transformer_case(rng, gen.full(h, w), "zero_pixels", c=2)
+            yield self._transformer_case(rng, gen.full(h, w, False), "zero_baselines", k=0, c=2)
+            yield self._transformer_case(rng, gen.full(h, w, False), "one_baseline", k=1, c=1)
+        yield self._transformer_case(rng, [[False]], "one_pixel_zero_baselines", k=0, c=1)
         n = 300 if tier == "quick" else 2500
         for i in range(n):
             h, w = rng.randint(1, 7), rng.randint(1, 7)
@@ -216,33 +254,83 @@ class C13(PropertyCheck):
         oy, ox = (_f(v) for v in case["origin"])
         return aa.Mask2D(mask=mb, pixel_scales=(sy, sx), origin=(oy, ox))
 
+    # -- feeding helpers (dtype / container variants; the real numbers are unchanged)
+    def _uv_in(self, case):
+        feed = case.get("feed") or {}
+        if feed.get("uv_dtype") == "int64":
+            return np.array([[int(Fraction(a)), int(Fraction(b))] for a, b in case["uv"]],
+                            dtype=np.int64).reshape(-1, 2)
+        return np.array([[_f(a), _f(b)] for a, b in case["uv"]], dtype=float).reshape(-1, 2)
+
+    def _scribble(self, case, uv_in):
+        """overwrite the CALLER's baseline array after construction: nothing may change."""
+        if (case.get("feed") or {}).get("scribble_uv") and uv_in.size:
+            uv_in *= -3
+            uv_in += 12345
+
+    def _image_in(self, case):
+        kind = (case.get("feed") or {}).get("image", "float")
+        if kind == "int64":
+            return np.array([int(Fraction(v)) for v in case["image"]], dtype=np.int64)
+        if kind == "pyint_list":
+            return [int(Fraction(v)) for v in case["image"]]
+        if kind == "float_list":
+            return [_f(v) for v in case["image"]]
+        if kind == "float32":
+            return np.array([_f(v) for v in case["image"]], dtype=np.float32)
+        return np.array([_f(v) for v in case["image"]], dtype=float)
+
+    def _matrix_in(self, rows, n_cols, kind):
+        if kind == "int64":
+            return np.array([[int(Fraction(v)) for v in r] for r in rows], dtype=np.int64).reshape(-1, n_cols)
+        a = np.array([[_f(v) for v in r] for r in rows], dtype=float).reshape(-1, n_cols)
+        return a.astype(np.float32) if kind == "float32" else a
+
+    def _vis_in(self, aa, pairs, kind, cls=None):
+        cls = cls or aa.Visibilities
+        if kind == "list" and pairs:
+            return cls(visibilities=[complex(_f(a), _f(b)) for a, b in pairs])
+        if kind == "pairs" and pairs:
+            return cls(visibilities=np.array([[_f(a), _f(b)] for a, b in pairs], dtype=float))
+        return cls(visibilities=np.array([complex(_f(a), _f(b)) for a, b in pairs], dtype=complex))
+
     def run_impl(self, case):
         aa = load_autoarray()
-        uv = np.array([[_f(a), _f(b)] for a, b in case["uv"]]).reshape(-1, 2)
+        feed = case.get("feed") or {}
         kind = case["kind"]
         if kind == "transformer":
             mask = self._mask(aa, case)
-            image = aa.Array2D(values=[_f(v) for v in case["image"]], mask=mask)
-            vis = aa.Visibilities(visibilities=np.array([complex(_f(a), _f(b)) for a, b in case["vis"]]))
-            M = np.array([[_f(v) for v in r] for r in case["M"]]).reshape(-1, case["n_cols"])
+            image = aa.Array2D(values=self._image_in(case), mask=mask)
+            vis = self._vis_in(aa, case["vis"], feed.get("vis", "complex"))
+            M = self._matrix_in(case["M"], case["n_cols"], feed.get("M", "float"))
             obs = {}
             for preload in (True, False):
-                t = aa.TransformerDFT(uv_wavelengths=uv, real_space_mask=mask, preload_transform=preload)
+                uv_in = self._uv_in(case)
+                if preload and feed.get("preload_kw") == "default":
+                    t = aa.TransformerDFT(uv_wavelengths=uv_in, real_space_mask=mask)
+                else:
+                    t = aa.TransformerDFT(uv_wavelengths=uv_in, real_space_mask=mask,
+                                          preload_transform=preload)
+                self._scribble(case, uv_in)
                 img = t.image_from(visibilities=vis)
                 obs["preload_" + str(preload).lower()] = {
                     "grid": [qlist(p) for p in np.array(t.grid).reshape(-1, 2)],
                     "visibilities": _cx_list(t.visibilities_from(image=image)),
                     "image": qlist(np.array(img.slim).ravel()),
                     "image_native": qlist(np.array(img.native).ravel()),
-                    "transformed": _cx_mat(t.transform_mapping_matrix(mapping_matrix=M)),
+                    "transformed": _cx_mat(np.asarray(t.transform_mapping_matrix(mapping_matrix=M)).reshape(
+                        len(case["uv"]), case["n_cols"])),
                 }
             return obs
+        uv = self._uv_in(case)
         if kind == "util":
             tu = aa.util.transformer
             grid = np.array([[_f(a), _f(b)] for a, b in case["grid"]]).reshape(-1, 2)
-            image = np.array([_f(v) for v in case["image"]])
-            vis2 = np.array([[_f(a), _f(b)] for a, b in case["vis"]]).reshape(-1, 2)
-            M = np.array([[_f(v) for v in r] for r in case["M"]]).reshape(-1, case["n_cols"])
+            image = np.asarray(self._image_in(case))
+            ints = feed.get("M") == "int64"
+            vis2 = np.array([[(int(Fraction(a)) if ints else _f(a)), (int(Fraction(b)) if ints else _f(b))]
+                             for a, b in case["vis"]]).reshape(-1, 2)
+            M = self._matrix_in(case["M"], case["n_cols"], feed.get("M", "float"))
             re = tu.preload_real_transforms(grid_radians=grid, uv_wavelengths=uv)
             im = tu.preload_imag_transforms(grid_radians=grid, uv_wavelengths=uv)
             return {
@@ -267,11 +355,14 @@ class C13(PropertyCheck):
         from autoarray.inversion.inversion.dataset_interface import DatasetInterface
 
         mask = self._mask(aa, case)
-        data = aa.Visibilities(visibilities=np.array([complex(_f(a), _f(b)) for a, b in case["data"]]))
-        noise = aa.VisibilitiesNoiseMap(visibilities=np.array([complex(_f(a), _f(b)) for a, b in case["noise"]]))
+        data = self._vis_in(aa, case["data"], feed.get("vis", "complex"))
+        noise = self._vis_in(aa, case["noise"], feed.get("vis", "complex"), aa.VisibilitiesNoiseMap)
         objs = []
         for o in case["objs"]:
-            M = np.array([[_f(v) for v in r] for r in o["M"]]).reshape(-1, o["n_cols"])
+            mk = feed.get("M", "float")
+            if mk == "int64" and not all(Fraction(v).denominator == 1 for r in o["M"] for v in r):
+                mk = "float"
+            M = self._matrix_in(o["M"], o["n_cols"], mk)
             reg = aa.m.MockRegularization(regularization_matrix=np.eye(o["n_cols"])) if o["has_reg"] else None
             if o["cls"] == "mapper":
                 objs.append(aa.m.MockMapper(mapping_matrix=M, parameters=o["n_cols"], regularization=reg,
@@ -289,9 +380,11 @@ class C13(PropertyCheck):
             if ds.transformer.preload_transform != case["preload"]:
                 ds.transformer = aa.TransformerDFT(uv_wavelengths=uv, real_space_mask=mask,
                                                    preload_transform=case["preload"])
+            self._scribble(case, uv)
             inv = aa.Inversion(dataset=ds, linear_obj_list=objs, settings=settings)
         else:
             t = aa.TransformerDFT(uv_wavelengths=uv, real_space_mask=mask, preload_transform=case["preload"])
+            self._scribble(case, uv)
             ds = DatasetInterface(data=data, noise_map=noise, transformer=t)
             inv = aa.InversionInterferometerMapping(dataset=ds, linear_obj_list=objs, settings=settings)
         if type(inv).__name__ != "InversionInterferometerMapping":
